@@ -1,5 +1,11 @@
 import ClusterVerif.Lemmas.C08
+import ClusterVerif.Lemmas.C08Eq
+import ClusterVerif.Lemmas.C08Wire
+import ClusterVerif.Lemmas.C08Query
+import ClusterVerif.Lemmas.C08Total
 import ClusterVerif.Gen.C08
+import ClusterVerif.Gen.C08Pb
+import ClusterVerif.Lemmas.C08Prod
 
 /-!
 # C08 — records survive every encoding boundary; decoders never crash
@@ -265,5 +271,140 @@ theorem tagged_field_identity (js : Bool) (f : Field) (tok : String)
   · have : (tok == "c-") = false := by simpa [undefCid] using hp
     simp [hd, hz, hs, hm, this, Except.toOption]
   · simp [hd, hz, hs, hm, hp, Except.toOption]
+
+
+/-! ## Equals: completeness and the exact characterisation (round 7) -/
+
+/-- what `PinOptions.Equals` compares, exactly: name, mode, both factors, shard size, the user allocations as a
+    multiset, the expiry, the metadata as a map WITHOUT the entry of the empty key, and the origins by length and
+    mutual inclusion of their addresses. NOT compared: `PinUpdate`, the empty metadata key, order and — beyond the
+    length — multiplicity of origins. No hypotheses. -/
+theorem opts_equals_iff (a b : PinOptions) : optsEquals a b = true ↔
+    (a.name = b.name ∧ a.mode = b.mode ∧ a.rmax = b.rmax ∧ a.rmin = b.rmin ∧ a.shardSize = b.shardSize ∧
+     a.userAllocs.Perm b.userAllocs ∧ a.expireAt = b.expireAt ∧
+     (∀ k v, (k, v) ∈ a.metadata → k ≠ emptyStr → lookupKV k b.metadata = some v) ∧
+     (∀ k v, (k, v) ∈ b.metadata → k ≠ emptyStr → (lookupKV k a.metadata).isSome = true) ∧
+     a.origins.length = b.origins.length ∧ (∀ o ∈ a.origins, ∃ o' ∈ b.origins, o.tok = o'.tok) ∧
+     (∀ o ∈ b.origins, ∃ o' ∈ a.origins, o.tok = o'.tok)) :=
+  CV.C08.opts_equals_iff a b
+
+/-- what `Pin.Equals` compares: CID, type, depth, reference, the allocations as a multiset, and the options as above -/
+theorem pin_equals_iff (a b : Pin) : pinEquals a b = true ↔
+    (a.cid = b.cid ∧ a.type = b.type ∧ a.maxDepth = b.maxDepth ∧ a.reference = b.reference ∧
+     a.allocs.Perm b.allocs ∧ optsEquals a.opts b.opts = true) :=
+  CV.C08.pin_equals_iff a b
+
+/-- `equals_complete` for the model: options that agree up to list order (and the two ignored items) are Equal -/
+theorem opts_equals_complete (a b : PinOptions) (hb : uniqueKeys b) (h : optsSameStrict a b = true) : optsEquals a b = true :=
+  CV.C08.opts_equals_complete a b hb h
+
+theorem pin_equals_complete (a b : Pin) (hb : uniqueKeys b.opts) (h1 : pinRest a b = true)
+    (h2 : optsSameStrict a.opts b.opts = true) : pinEquals a b = true :=
+  CV.C08.pin_equals_complete a b hb h1 h2
+
+example : uniqueKeys clusterDagPin.opts ∧ pinRest clusterDagPin clusterDagPin = true ∧
+    optsSameStrict clusterDagPin.opts clusterDagPin.opts = true := by
+  refine ⟨by simp [uniqueKeys, clusterDagPin], by decide, by decide⟩
+
+/-! ## byte-level wire forms (round 7) -/
+open CV.C08.Wire
+
+/-- field numbers, wire kinds and repeated flags of `pb.Pin`/`pb.PinOptions` in today's generated code are the
+    ones the byte-level model is written for -/
+theorem pb_schema_matches : Gen.Pb.schema = Wire.expectedSchema := by decide
+
+theorem varint_roundtrip (n : Nat) (rest : Bytes) (h : n < Wire.two64) : decodeVarint (encodeVarint n ++ rest) = some (n, rest) :=
+  decodeVarint_encode n rest h
+
+theorem zigzag_roundtrip (i : Int) (h : inI32 i = true) : unzigzag32 (zigzag32 i) = i := unzigzag32_zigzag32 i h
+
+/-- bytes ⇄ `(field number, wire type, payload)` lists -/
+theorem tokens_roundtrip (ts : List Tok) (h : ts.all wfTok = true) : tokens (encodeToks ts) = some ts := tokens_encode ts h
+
+/-- `proto.Unmarshal(proto.Marshal(m)) = m` at the byte level, for every message within the ranges of the wire
+    format (int32 fields, UTF-8 strings, unique map keys, payload lengths below 2^64) -/
+theorem pb_decode_encode (m : PinRaw) (h : wfMsg m = true) : (encodePin m).bind decodePin = some m := by
+  have he : encodePin m = some (encodeToks (toksPin m)) := by
+    unfold encodePin
+    cases ho : m.opts with
+    | none => rfl
+    | some o =>
+      have : stringsValid o = true := by
+        simp only [wfMsg, wfPinRaw, ho, wfOptsRaw, Bool.and_eq_true] at h
+        simp only [stringsValid, Bool.and_eq_true]
+        exact ⟨h.1.1.2.1.1.1.2, h.1.1.2.2⟩
+      simp [this]
+  rw [he]
+  exact decodePin_encode m h
+
+/-- the decoder accepts the fields in any order that keeps the relative order of tokens of one field number -/
+theorem pb_decode_perm {ts ts' : List Tok} (h : FieldPerm ts ts') : pinOfToks ts = pinOfToks ts' := pinOfToks_perm h
+
+/-- … in particular the canonical encoding reordered: still the message -/
+theorem pb_decode_perm_canonical (m : PinRaw) (hw : wfMsg m = true) {ts' : List Tok} (h : FieldPerm (toksPin m) ts') :
+    pinOfToks ts' = some m := by
+  rw [← pinOfToks_perm h]; exact pinOfToks_toksPin m hw
+
+/-- unknown fields (numbers above 6, or a known number in another wire type) are skipped wherever they stand -/
+theorem pb_decode_unknown_skipped (l1 l2 : List Tok) (t : Tok) (h : 6 < t.num) :
+    pinOfToks (l1 ++ t :: l2) = pinOfToks (l1 ++ l2) := pinOfToks_skip l1 l2 t (pinUpd_unknown t h)
+
+/-- the last value of a singular field wins (here: `MaxDepth`) -/
+example : pinOfToks [⟨4, .varint 1⟩, ⟨4, .varint 4⟩] = some { PinRaw.zero with maxDepth := 2 } := by decide
+
+/-- the byte layer is transparent: whatever `ProtoUnmarshal` computes from the decoded message (`ofMsg`), it
+    computes from the message `ProtoMarshal` built — so `Pin → bytes → Pin` is `Pin → pb.Pin → Pin`, which
+    `proto_roundtrip` shows to be the projection `lossyProto` -/
+theorem proto_roundtrip_bytes {α : Type} (ofMsg : PinRaw → α) (m : PinRaw) (h : wfMsg m = true) :
+    ((encodePin m).bind decodePin).map ofMsg = some (ofMsg m) := by
+  rw [pb_decode_encode m h]; rfl
+
+/-- totality with well-formedness: every byte string is rejected or decodes to a message whose scalar fields are
+    in range and whose strings are UTF-8; the byte-string leaves (CIDs, peers, multiaddresses) are arbitrary — the
+    junk class `ProtoUnmarshal` maps to cid.Undef / an error -/
+theorem decode_total_wf (bs : Bytes) : decodePin bs = none ∨ ∃ p, decodePin bs = some p ∧ wfPinRaw p = true :=
+  CV.C08.Wire.decode_total_wf bs
+
+def exampleMsg : PinRaw :=
+  { cid := [1, 85, 18, 1, 7], type := 3, allocs := [[18, 1, 9], []], maxDepth := -1, reference := [],
+    opts := some { rmin := -1, rmax := 2147483647, name := [195, 169], shardSize := 0,
+                   metadata := [([107], [38, 61]), ([], [])], pinUpdate := [], expireAt := 1900000000, origins := [[4, 127, 0, 0, 1]] } }
+
+example : wfMsg exampleMsg = true := by decide
+example : (encodePin exampleMsg).bind decodePin = some exampleMsg := pb_decode_encode _ (by decide)
+
+/-- `url.QueryUnescape(url.QueryEscape(s)) = s` for every byte string -/
+theorem unescape_escape (s : Bytes) : unescape (escape s) = some s := CV.C08.Wire.unescape_escape s
+
+/-- `url.ParseQuery(url.Values.Encode())` gives back every parameter, in key order, whatever bytes keys and
+    values hold (`&`, `=`, `%`, `+`, space, non-ASCII, invalid UTF-8) -/
+theorem query_roundtrip_text (l : List (Bytes × Bytes)) : parseQuery (encodeQuery l) = some (sortKV l) :=
+  CV.C08.Wire.query_roundtrip_text l
+
+/-- … and `Get` reads each of them back verbatim -/
+theorem query_get_roundtrip (l : List (Bytes × Bytes)) (k v : Bytes) (hn : (l.map (·.1)).Nodup) (hm : (k, v) ∈ l) :
+    (parseQuery (encodeQuery l)).map (getQ k) = some v := CV.C08.Wire.query_get_roundtrip l k v hn hm
+
+example : (parseQuery (encodeQuery [([110], [38, 61, 37, 43, 32, 255]), ([109, 45], [])])).map (getQ [110]) = some [38, 61, 37, 43, 32, 255] := by decide
+
+
+/-! ## the producers: what the non-test code builds (round 7) -/
+open CV.C08.Prod CV.C08.Gen.Prod in
+/-- over the table of every construction / mutation site of the wire record types in non-test code
+    (`Gen/C08Prod.lean`, regenerated on every run): every construction shape is recognised; no producer builds a
+    pin whose mode disagrees with its depth (K13's precondition), sets a `Reference` to `cid.Undef` (K37/K38's),
+    or sets a pin type that is not one of the four storable constants; field assignments outside construction
+    sites only happen in the decoder itself; and the table covers the known producers -/
+theorem producers_ok : allOK facts sites = true := CV.C08.Prod.producers_ok
+
+open CV.C08.Prod CV.C08.Gen.Prod in
+theorem producers_mode_depth_agree : facts.constructors = true ∧ (sites.all (modeDepthOK facts.recursive)) = true :=
+  CV.C08.Prod.producers_mode_depth_agree
+
+open CV.C08.Prod CV.C08.Gen.Prod in
+theorem producers_reference_defined : (sites.all referenceOK) = true := CV.C08.Prod.producers_reference_defined
+
+open CV.C08.Prod CV.C08.Gen.Prod in
+theorem producers_recognised : noUnrecognised sites unrecognisedAllowed = true := CV.C08.Prod.producers_recognised
 
 end CV.C08.Props
